@@ -231,6 +231,22 @@ func c17Target(c *Ctx, p *Prog) {
 			}
 		}
 	}
+	// binary.BigEndian.Uint16(rawPort) of the 2-byte read is the same number
+	pv := unspill(port)
+	if cv, isCv := pv.(*ssa.Convert); isCv {
+		pv = unspill(cv.X)
+	}
+	if uc, _ := callOf(pv); uc != nil && p.CalleeID(uc.Common()) == "(encoding/binary.bigEndian).Uint16" {
+		src := unspill(uc.Common().Args[1])
+		if sl, isSl := src.(*ssa.Slice); isSl && (sl.Low == nil || func() bool { k, ok := intConst(sl.Low); return ok && k == 0 }()) {
+			src = unspill(sl.X)
+		}
+		if rcall, idx := callOf(src); rcall != nil && idx == 0 && rcall.Common().StaticCallee() != nil && rcall.Common().StaticCallee().Name() == "readBytes" {
+			if k, _ := intConst(rcall.Common().Args[1]); k == 2 {
+				okPort = true
+			}
+		}
+	}
 	if !okPort {
 		bad = "port is not int(rawPort[0])<<8 | int(rawPort[1]) of a 2-byte read"
 	}
@@ -310,6 +326,27 @@ func hostArmShape(p *Prog, v ssa.Value) string {
 			}
 		}
 		return "string(?)"
+	}
+	// "[" + net.IP(rawAddr).String() + "]"
+	if o, ok := v.(*ssa.BinOp); ok && o.Op == token.ADD {
+		if r, isR := constString(o.Y); isR && r == "]" {
+			if i, ok := unspill(o.X).(*ssa.BinOp); ok && i.Op == token.ADD {
+				if l, isL := constString(i.X); isL && l == "[" {
+					if sc, _ := callOf(unspill(i.Y)); sc != nil && p.CalleeID(sc.Common()) == "(net.IP).String" {
+						sl := p.Slice(sc.Common().Args[0], SliceOpt{})
+						for x := range sl.Seen {
+							if rc, ok := x.(*ssa.Call); ok && rc.Common().StaticCallee() != nil && rc.Common().StaticCallee().Name() == "readBytes" {
+								if k, _ := intConst(rc.Common().Args[1]); k == 16 {
+									return "ipv6(16)"
+								}
+							}
+						}
+						return "ipv6(?)"
+					}
+				}
+			}
+		}
+		return "?"
 	}
 	c, _ := callOf(v)
 	if c == nil {
@@ -551,34 +588,131 @@ func c17Replies(c *Ctx, p *Prog) {
 	bad := ""
 	codes := map[int64]bool{}
 	nfail := 0
+	// a failure arm: one way of failing, with the reply code it sends and the facts that hold on it.
+	// Either a failure return with its own constant Reply, or one incoming edge of a merged reply code
+	// (single reply site: Reply(code) with code a phi of constants).
+	type arm struct {
+		facts []Fact
+		code  int64
+		pos   string
+	}
+	var arms []arm
+	var expand func(v ssa.Value, facts []Fact, pos string, d int) bool
+	expand = func(v ssa.Value, facts []Fact, pos string, d int) bool {
+		v = unspill(v)
+		if k, ok := intConst(v); ok {
+			arms = append(arms, arm{facts, k, pos})
+			return true
+		}
+		phi, ok := v.(*ssa.Phi)
+		if !ok || d > 4 {
+			return false
+		}
+		for i, e := range phi.Edges {
+			pred := phi.Block().Preds[i]
+			if ff.Infeasible(pred) || ff.EdgeInfeasible(pred, phi.Block()) {
+				continue
+			}
+			fs := append([]Fact{}, ff.NC(pred)...)
+			if ef, ok := edgeFact(pred, phi.Block()); ok {
+				fs = append(fs, ef)
+			}
+			ppos := pos
+			if len(pred.Instrs) > 0 {
+				ppos = p.InstrPos(pred.Instrs[len(pred.Instrs)-1])
+			}
+			if !expand(e, fs, ppos, d+1) {
+				return false
+			}
+		}
+		return true
+	}
+	// a local helper closure  fail := func(code, err) error { _ = req.Reply(code); return err }
+	replyVia := func(v ssa.Value) (ssa.Value, *ssa.Call, bool) {
+		call, ok := unspill(v).(*ssa.Call)
+		if !ok {
+			return nil, nil, false
+		}
+		var fn *ssa.Function
+		switch x := unspill(call.Common().Value).(type) {
+		case *ssa.MakeClosure:
+			fn, _ = x.Fn.(*ssa.Function)
+		case *ssa.Function:
+			fn = x
+		}
+		if fn == nil || fn.Parent() != rc {
+			return nil, nil, false
+		}
+		var code ssa.Value
+		n := 0
+		allInstrs(fn, func(in ssa.Instruction) {
+			if rp, ok := in.(*ssa.Call); ok && rp.Common().StaticCallee() != nil && rp.Common().StaticCallee().Name() == "Reply" && rp.Block() == fn.Blocks[0] {
+				n++
+				for i, q := range fn.Params {
+					if unspill(rp.Common().Args[1]) == ssa.Value(q) && i < len(call.Common().Args) {
+						code = call.Common().Args[i]
+					}
+				}
+			}
+		})
+		if n != 1 || code == nil {
+			return nil, nil, false
+		}
+		// the closure hands its error argument through
+		for _, r := range returnsOf(fn) {
+			if _, isParam := unspill(r.Results[0]).(*ssa.Parameter); !isParam {
+				return nil, nil, false
+			}
+		}
+		return code, call, true
+	}
 	for _, r := range returnsOf(rc) {
+		if code, _, ok := replyVia(r.Results[0]); ok {
+			// return fail(code, err): a failure arm whatever err is
+			delete(succ, r)
+			if !expand(code, ff.NC(r.Block()), p.InstrPos(r), 0) {
+				bad = "the reply code at " + p.InstrPos(r) + " is not a constant on every path"
+			}
+			continue
+		}
 		if succ[r] {
 			continue
 		}
-		nfail++
 		found := false
-		for _, in := range r.Block().Instrs {
-			if call, ok := in.(*ssa.Call); ok && call.Common().StaticCallee() != nil && call.Common().StaticCallee().Name() == "Reply" {
-				found = true
-				if k, ok := intConst(call.Common().Args[1]); ok {
-					codes[k] = true
+		allInstrs(rc, func(in ssa.Instruction) {
+			call, ok := in.(*ssa.Call)
+			if !ok || call.Common().StaticCallee() == nil || call.Common().StaticCallee().Name() != "Reply" || !instrDominates(call, r) {
+				return
+			}
+			// the reply belongs to this failure: nothing succeeds after it
+			for s := range succ {
+				if canReachWithout(call, s, nil) {
+					return
 				}
 			}
-		}
+			found = true
+			if !expand(call.Common().Args[1], ff.NC(r.Block()), p.InstrPos(r), 0) {
+				bad = "the reply code at " + p.InstrPos(call) + " is not a constant on every path"
+			}
+		})
 		if !found {
 			bad = "failure return at " + p.InstrPos(r) + " sends no reply"
 		}
 	}
+	for _, a := range arms {
+		codes[a.code] = true
+	}
+	nfail = len(arms)
 	if !codes[7] || !codes[8] || !codes[1] {
 		bad = fmt.Sprintf("reply codes used on failure are %v; expected 1 (general), 7 (command not supported) and 8 (address type not supported)", codes)
 	}
 	if nfail < 8 && bad == "" {
-		bad = fmt.Sprintf("only %d failure returns found", nfail)
+		bad = fmt.Sprintf("only %d failure arms found", nfail)
 	}
 	if bad != "" {
 		ob.Violate("%s", bad)
 	} else {
-		ob.HoldNT("%d failure returns, each after a Reply; codes 1, 7, 8 in use", nfail)
+		ob.HoldNT("%d failure arms, each with a Reply; codes 1, 7, 8 in use", nfail)
 	}
 	// command/address type mapping
 	ob = c.Obl("R5", "common/socks5:(*Request).readCommand#code-mapping", "the command check fails with 'command not supported' and the address-type default arm with 'address type not supported'")
@@ -592,18 +726,19 @@ func c17Replies(c *Ctx, p *Prog) {
 				bad = "the only accepted command is not CONNECT (1)"
 			}
 		}
-		// the failure block of this call
-		for _, r := range returnsOf(rc) {
-			if succ[r] || !hasFact(ff.NC(r.Block()), func(f Fact) bool { x, isNil, ok := FactNilCmp(f); cc, _ := callOf(unspill(x)); return ok && !isNil && cc == call.(*ssa.Call) }) {
+		// the failure arm(s) of this call
+		n := 0
+		for _, a := range arms {
+			if !hasFact(a.facts, func(f Fact) bool { x, isNil, ok := FactNilCmp(f); cc, _ := callOf(unspill(x)); return ok && !isNil && cc == call.(*ssa.Call) }) {
 				continue
 			}
-			for _, in := range r.Block().Instrs {
-				if rp, ok := in.(*ssa.Call); ok && rp.Common().StaticCallee() != nil && rp.Common().StaticCallee().Name() == "Reply" {
-					if k, _ := intConst(rp.Common().Args[1]); k != want {
-						bad = fmt.Sprintf("a wrong '%s' field is answered with code %d, expected %d", descr, k, want)
-					}
-				}
+			n++
+			if a.code != want {
+				bad = fmt.Sprintf("a wrong '%s' field is answered with code %d, expected %d", descr, a.code, want)
 			}
+		}
+		if n == 0 && bad == "" {
+			bad = fmt.Sprintf("no failure arm for a wrong '%s' field", descr)
 		}
 	}
 	if bad != "" {
